@@ -190,17 +190,7 @@ Qed.
 
 (* ---- C04_401_empty: the exact answer to a refused request on tables of today's shape ---- *)
 
-Definition routed (t : table) (q : request) : bool :=
-  match find_route (c_routes (compile t)) (q_method q) (q_pattern q) with
-  | Some _ => true
-  | None => q_listed q && match c_externs (compile t) with [] => false | _ => true end
-  end.
-
-Definition denied_status (t : table) (q : request) : Z :=
-  if is_preflight q then 204%Z
-  else if t_withpath t then
-         (if routed t q then (if valid_path (q_path q) then 401%Z else 400%Z) else 404%Z)
-       else 401%Z.
+Notation denied_status := (denied_status valid_path).
 
 Lemma strict_run act wp q ch rt d : strict_chain act wp rt ch = true -> A act wp q = false ->
   (wp = true -> rt = false -> d = 404%Z) ->
